@@ -1,6 +1,7 @@
 package main
 
 import (
+	"errors"
 	"encoding/binary"
 	"fmt"
 	"io"
@@ -25,6 +26,13 @@ func init() {
 	replayers["pipflags"] = func(f []string) string { return runPIPFlags(string(hx.UnHex(f[1]))) }
 	replayers["ptcpflags"] = func(f []string) string { return runPTCPFlags(string(hx.UnHex(f[1]))) }
 	replayers["pportsfile"] = func(f []string) string { return runPPortsFile(string(hx.UnHex(f[1]))) }
+	for _, tag := range []string{"pportsfault", "pexclfault"} {
+		tag := tag
+		replayers[tag] = func(f []string) string {
+			at, _ := strconv.Atoi(f[2])
+			return runPFault(tag, string(hx.UnHex(f[1])), at)
+		}
+	}
 	replayers["pexclfile"] = func(f []string) string { return runPExclFile(string(hx.UnHex(f[1]))) }
 }
 
@@ -125,6 +133,50 @@ func (strCloser) Close() error { return nil }
 
 func opener(data string) command.VerifOpenFile {
 	return func() (io.ReadCloser, error) { return strCloser{strings.NewReader(data)}, nil }
+}
+
+// faultyReader delivers data[:at] (in small chunks) and then fails with a non-EOF error, as a disk
+// error, a directory opened as a file (EISDIR) or a vanished NFS mount would
+type faultyReader struct {
+	data []byte
+	pos  int
+	at   int
+}
+
+func (f *faultyReader) Read(p []byte) (int, error) {
+	if f.pos >= f.at {
+		return 0, errors.New("read: input/output error")
+	}
+	n := f.at - f.pos
+	if n > len(p) {
+		n = len(p)
+	}
+	if n > 7 {
+		n = 7
+	}
+	copy(p, f.data[f.pos:f.pos+n])
+	f.pos += n
+	return n, nil
+}
+func (f *faultyReader) Close() error { return nil }
+
+func faultyOpener(data string, at int) command.VerifOpenFile {
+	return func() (io.ReadCloser, error) { return &faultyReader{data: []byte(data), at: at}, nil }
+}
+
+func runPFault(tag, data string, at int) string {
+	return guard(func() string {
+		var err error
+		if tag == "pportsfault" {
+			_, err = command.VerifParsePortsFile(faultyOpener(data, at))
+		} else {
+			_, err = command.VerifParseExcludeFile(faultyOpener(data, at))
+		}
+		if err != nil {
+			return "ERR"
+		}
+		return "OK"
+	})
 }
 
 func runPPortsFile(data string) string {
@@ -426,6 +478,23 @@ func parseComponent(r *hx.Run) {
 		emit("pportsfile", "valid", d, runPPortsFile(d))
 		d = fileLines(netEntry)
 		emit("pexclfile", "valid", d, runPExclFile(d))
+		if i%3 == 0 {
+			// a read that fails part-way (also right at the start, and right at the end of the data)
+			for _, tg := range []string{"pportsfault", "pexclfault"} {
+				d := fileLines(portEntry)
+				if tg == "pexclfault" {
+					d = fileLines(netEntry)
+				}
+				at := 0
+				switch rng.Intn(4) {
+				case 1:
+					at = len(d)
+				case 2, 3:
+					at = rng.Intn(len(d) + 1)
+				}
+				emit(tg, "fault", d, runPFault(tg, d, at), strconv.Itoa(at))
+			}
+		}
 		if i%2 == 0 {
 			m := mutate(fileLines(portEntry))
 			emit("pportsfile", "mutated", m, runPPortsFile(m))
